@@ -135,11 +135,19 @@ class _Inline(_InternalNode):
             for i, var in zip(self.model.graph.input, self.inputs.inputs)
         }
         output_feed = run(self.model, input_feed)
-        return {
-            f"outputs_{k}": unwrap_feed(var.unwrap_type(), output_feed[o.name]).value
-            for k, (o, var) in enumerate(zip(self.graph.output, self.outputs.outputs))
-            if o.name in output_feed
-        }
+        results: Dict[str, _value_prop.PropValueType] = {}
+        for k, (o, var) in enumerate(zip(self.graph.output, self.outputs.outputs)):
+            if o.name not in output_feed:
+                continue
+            # See StandardNode.propagate_values_onnx: a misbehaving backend must not fail the constructor.
+            try:
+                results[f"outputs_{k}"] = unwrap_feed(
+                    var.unwrap_type(), output_feed[o.name]
+                ).value
+            except Exception:
+                if _value_prop.VALUE_PROP_STRICT_CHECK:
+                    raise
+        return results
 
     def to_onnx(
         self, scope: Scope, doc_string: Optional[str] = None, build_subgraph=None
